@@ -18,7 +18,9 @@ def gen(r, algo=None, focus=None, tier="quick", offgrid=False):
     pools = 2 if algo == "priority-pool" else r.choice([1, 1, 2, 2, 3, 4])
     cpus = r.choice([1, 1, 2, 4, 8, 10, 16, 64])
     if r.random() < 0.06:
-        cpus = r.choice([1.5, 2.5, 12.5, 20.5, 10 / 3, 7 / 3])      # nothing in the package requires whole CPUs per pool
+        # nothing in the package requires whole CPUs per pool; halves only: the priority schedulers hand a pool's
+        # leftover to the last container, and the documented log law b / (ln(c) + 1) is undefined below 1/e CPUs
+        cpus = r.choice([1.5, 2.5, 12.5, 20.5])
     unit = F(20, tps)
     mode = r.random()
     if mode < 0.55:
